@@ -1,2 +1,5 @@
 import PyseqmVerif.Model.Util
 import PyseqmVerif.Model.MDOut
+import PyseqmVerif.Proofs.MDOutLemmas
+import PyseqmVerif.Properties.C11
+import PyseqmVerif.Properties.C10
